@@ -1,1 +1,10 @@
 //! Verification hooks: `address_lookup` (thin pass-through wrappers; feature `verif-hooks` only).
+
+use iroh_dns::endpoint_info::EndpointData;
+
+use crate::address_lookup::AddressLookupServices;
+
+/// Calls the crate-private [`AddressLookupServices::publish`], unchanged.
+pub fn publish(services: &AddressLookupServices, data: &EndpointData) {
+    services.publish(data)
+}
